@@ -62,6 +62,12 @@ func extraCorpora() []CorpusSpec {
 		out = append(out, CorpusSpec{Name: name, Schemas: []string{e}, Flags: []string{"--tl2WhiteList=*", "--generateByteVersions=*", "--generateRandomCode"}, TL2: true, Bytes: true, LengthCheck: true, Random: true, Quick: true})
 		out = append(out, CorpusSpec{Name: name + "TL1", Schemas: []string{e}, Flags: []string{"--generateRandomCode"}, LengthCheck: true, Random: true, Quick: false})
 	}
+	entries2, _ := filepath.Glob(filepath.Join(verifDir, "schemas", "*.tl2"))
+	sort.Strings(entries2)
+	for _, e := range entries2 {
+		name := "x_" + strings.TrimSuffix(filepath.Base(e), ".tl2")
+		out = append(out, CorpusSpec{Name: name, Schemas: []string{e}, Flags: []string{"--tl2WhiteList=*", "--generateByteVersions=*", "--generateRandomCode"}, TL2: true, Bytes: true, LengthCheck: true, Random: true, Quick: true})
+	}
 	return out
 }
 
